@@ -31,13 +31,24 @@ def images(work: str, seed: int) -> List[Dict[str, Any]]:
                                               "rate": 22050, "pair": "R"})
     a["parts"][0]["sat"] += [[a["nsect"], 49152], [a["nsect"] + 1, 49152]]
     a["nsect"] += 2
+    # a file and a directory of OTHER branches carry the same raw name ending in '-' (export names differ: 'KICK-' / 'KICK-0')
+    n0 = a["nsect"]
+    a["parts"][0]["vols"][0]["files"].append({"name": "KICK-", "stem": "", "ftype": 243, "chain": [n0], "cnt": 31, "ps": 0, "pe": 31, "rate": 44100, "pair": ""})
+    a["parts"][0]["sat"].append([n0, 49152])
+    a["nsect"] += 1
+    b = naming.akai_dirs_case(["KICK-", "VOL."])
+    b["parts"][0]["vols"][1]["files"][0]["name"] = "KICK-"
+    for part in (a, b):
+        part["nsect"] = max(a["nsect"], b["nsect"])
+    a["parts"].append(b["parts"][0])
     p = os.path.join(work, "akai.img")
     open(p, "wb").write(aw.build_image(a, seed))
-    out.append({"kind": "akai", "path": p, "map": {"root": "", "dir1": "A:/VOL A", "dir2": "A:/VOL B", "file": "A:/VOL A/S0", "bad": "A:/nope/x"}})
-    r = naming.roland_dirs_case(["Perf X", "Perf Y"], "performance")
+    out.append({"kind": "akai", "path": p, "map": {"root": "", "dir1": "A:/VOL A", "dir2": "B:/KICK-", "file": "A:/VOL A/S0", "bad": "A:/nope/x"}})
+    r = naming.roland_dirs_case(["Perf X", "Lead-"], "performance")
+    r["img"]["samples"][0]["name"] = "Lead-"            # a sample of the FIRST performance named like the second performance
     p = os.path.join(work, "roland.img")
     open(p, "wb").write(rw.build_image(r, seed))
-    out.append({"kind": "roland", "path": p, "map": {"root": "", "dir1": "Vol", "dir2": "Vol/Perf Y", "file": "Vol/Perf X/Smp0", "bad": "Vol/zz"}})
+    out.append({"kind": "roland", "path": p, "map": {"root": "", "dir1": "Vol", "dir2": "Vol/Lead-", "file": "Vol/Perf X/Lead-", "bad": "Vol/zz"}})
     lines, binlen = naming.cue_lines(["One", "Two", "Three"])
     cpath, _ = cue.write_pair(os.path.join(work, "cd"), cue.render(lines, 0, seed), binlen + 6, seed)
     out.append({"kind": "cdda", "path": cpath, "map": {"root": "", "dir1": "Two", "dir2": "Three", "file": "One", "bad": "Four"}})
